@@ -1,1 +1,413 @@
-// verification harness include for timer (see /verif/DESIGN.md)
+// Included at the end of /repo/src/timer/timer.rs under cfg(futures_intrusive_verif).
+// Timer harnesses: C15 (+ C01, C17 parts). The clock is a harness Clock over a static the script advances.
+
+pub(crate) mod verif_timer {
+    use super::*;
+    use crate::intrusive_pairing_heap::{verif_validate4};
+    use crate::verif::common::*;
+    use core::mem::ManuallyDrop;
+    use core::sync::atomic::{AtomicU64, Ordering};
+
+    macro_rules! oracle {
+        ($p:expr, $mask:expr, $cond:expr, $msg:literal) => {
+            if ($p & $mask) != 0 {
+                assert!($cond, $msg);
+            }
+        };
+    }
+
+    pub struct HClock(pub AtomicU64);
+    impl Clock for HClock {
+        fn now(&self) -> u64 { self.0.load(Ordering::Relaxed) }
+    }
+    pub static CLOCK: HClock = HClock(AtomicU64::new(0));
+
+    pub const K: usize = 3;
+    pub const W_TWO_EXPIRE: u32 = 1; // one check_expirations expired >= 2 timers with different deadlines
+    pub const W_DUE_AND_NOT_DUE: u32 = 2; // one check expired a timer and left another registered
+    pub const W_DROP_REGISTERED: u32 = 4; // a registered timer was dropped while others stay registered
+    pub const W_DUP_DEADLINE: u32 = 8; // two registered timers share a deadline
+
+    pub fn hist<M: RawMutex, S: Src>(s: &mut S, _cfg: u32, n: usize, p: u32) -> u32 {
+        CLOCK.0.store(0, Ordering::Relaxed);
+        let svc = GenericTimerService::<M>::new(&CLOCK);
+        let (c0a, c0b, c1a, c1b, c2a, c2b) = (
+            WakeCell::new(), WakeCell::new(), WakeCell::new(),
+            WakeCell::new(), WakeCell::new(), WakeCell::new(),
+        );
+        let mut dl = [s.below(4) as u64, s.below(4) as u64, s.below(4) as u64];
+        let mut f0 = ManuallyDrop::new(LocalTimer::deadline(&svc, dl[0]));
+        let mut f1 = ManuallyDrop::new(LocalTimer::deadline(&svc, dl[1]));
+        let mut f2 = ManuallyDrop::new(LocalTimer::deadline(&svc, dl[2]));
+        let mut now: u64 = 0;
+        let mut alive = [true; K];
+        let mut reg = [false; K]; // registered, not yet expired
+        let mut expired = [false; K]; // expired by a check, not yet observed by a poll
+        let mut done = [false; K];
+        let mut lw = [0u8; K];
+        let mut snap = [0u32; K];
+        let mut ever = [false; K];
+        let mut fresh = [true; K];
+        let mut bits = 0u32;
+        let mut step = 0;
+        while step < n && !s.exhausted() {
+            step += 1;
+            let op = s.below(11);
+            if op < 6 {
+                let i = (op / 2) as usize;
+                let w = op % 2;
+                s.assume(!done[i]);
+                s.assume(i == 0 || ever[i - 1]);
+                s.assume(!fresh[i] || w == 0);
+                ever[i] = true;
+                let f = match i { 0 => &mut f0, 1 => &mut f1, _ => &mut f2 };
+                if !alive[i] {
+                    dl[i] = s.below(4) as u64;
+                    *f = ManuallyDrop::new(LocalTimer::deadline(&svc, dl[i]));
+                    alive[i] = true;
+                    fresh[i] = true;
+                    oracle!(p, P17, !f.is_terminated(), "C17 timer: fresh timer future reports terminated");
+                }
+                fresh[i] = false;
+                let cell = match (i, w) {
+                    (0, 0) => &c0a, (0, _) => &c0b,
+                    (1, 0) => &c1a, (1, _) => &c1b,
+                    (_, 0) => &c2a, (_, _) => &c2b,
+                };
+                let waker = ManuallyDrop::new(mk_waker(cell));
+                let mut cx = Context::from_waker(&waker);
+                let r = unsafe { Pin::new_unchecked(&mut **f) }.poll(&mut cx);
+                // model: first poll completes iff the clock reached the deadline; a registered future completes
+                // only after a check_expirations() that observed clock >= deadline
+                let expect_ready = if reg[i] { false } else if expired[i] { true } else { now >= dl[i] };
+                match r {
+                    Poll::Ready(()) => {
+                        oracle!(p, P15, expect_ready, "C15 timer: a timer future completed before its deadline was reached / observed by check_expirations");
+                        oracle!(p, P15, now >= dl[i], "C15 timer: a timer future completed while the clock is below its deadline");
+                        reg[i] = false;
+                        expired[i] = false;
+                        done[i] = true;
+                    }
+                    Poll::Pending => {
+                        oracle!(p, P15, !expect_ready, "C15 timer: a due timer future did not complete");
+                        if !reg[i] {
+                            let mut j = 0;
+                            while j < K { if j != i && reg[j] && dl[j] == dl[i] { bits |= W_DUP_DEADLINE; } j += 1; }
+                        }
+                        reg[i] = true;
+                        lw[i] = w;
+                        snap[i] = cell.n();
+                    }
+                }
+            } else if op < 9 {
+                let i = (op - 6) as usize;
+                s.assume(alive[i] && (reg[i] || expired[i] || done[i]));
+                let f = match i { 0 => &mut f0, 1 => &mut f1, _ => &mut f2 };
+                if reg[i] && (reg[0] as u8 + reg[1] as u8 + reg[2] as u8) >= 2 { bits |= W_DROP_REGISTERED; }
+                unsafe { ManuallyDrop::drop(f) };
+                alive[i] = false;
+                reg[i] = false;
+                expired[i] = false;
+                done[i] = false;
+            } else if op == 9 {
+                let d = 1 + s.below(2) as u64;
+                now += d;
+                CLOCK.0.store(now, Ordering::Relaxed);
+            } else {
+                let before = [c0a.n(), c0b.n(), c1a.n(), c1b.n(), c2a.n(), c2b.n()];
+                svc.check_expirations();
+                let after = [c0a.n(), c0b.n(), c1a.n(), c1b.n(), c2a.n(), c2b.n()];
+                let seqs = [c0a.last_seq.get(), c0b.last_seq.get(), c1a.last_seq.get(), c1b.last_seq.get(), c2a.last_seq.get(), c2b.last_seq.get()];
+                let mut nexp = 0u8;
+                let mut nleft = 0u8;
+                let mut i = 0;
+                while i < K {
+                    let li = 2 * i + lw[i] as usize;
+                    if reg[i] && dl[i] <= now {
+                        oracle!(p, P15, after[li] == before[li] + 1, "C15 timer: check_expirations did not wake a due timer exactly once through its latest waker");
+                        let oi = 2 * i + (1 - lw[i]) as usize;
+                        oracle!(p, P15, after[oi] == before[oi], "C15 timer: check_expirations woke a stale waker");
+                        nexp += 1;
+                    } else {
+                        oracle!(p, P15, after[2 * i] == before[2 * i] && after[2 * i + 1] == before[2 * i + 1],
+                            "C15 timer: check_expirations woke a timer that is not due (or not registered)");
+                        if reg[i] { nleft += 1; }
+                    }
+                    i += 1;
+                }
+                // wake order: non-decreasing deadline
+                i = 0;
+                while i < K {
+                    let mut j = 0;
+                    while j < K {
+                        if i != j && reg[i] && reg[j] && dl[i] <= now && dl[j] <= now && dl[i] < dl[j] {
+                            oracle!(p, P15, seqs[2 * i + lw[i] as usize] < seqs[2 * j + lw[j] as usize],
+                                "C15 timer: due timers were not woken in deadline order");
+                            bits |= W_TWO_EXPIRE;
+                        }
+                        j += 1;
+                    }
+                    i += 1;
+                }
+                if nexp >= 1 && nleft >= 1 { bits |= W_DUE_AND_NOT_DUE; }
+                i = 0;
+                while i < K {
+                    if reg[i] && dl[i] <= now { reg[i] = false; expired[i] = true; }
+                    i += 1;
+                }
+            }
+            // next_expiration() = smallest deadline among registered, not yet expired, not dropped futures
+            let mut mn: Option<u64> = None;
+            let mut i = 0;
+            while i < K {
+                if reg[i] && mn.map_or(true, |m| dl[i] < m) { mn = Some(dl[i]); }
+                i += 1;
+            }
+            oracle!(p, P15, svc.next_expiration() == mn, "C15 timer: next_expiration() differs from the smallest registered deadline");
+            if (p & P17) != 0 {
+                if alive[0] { assert!(f0.is_terminated() == done[0], "C17 timer: is_terminated() differs from 'completed'"); }
+                if alive[1] { assert!(f1.is_terminated() == done[1], "C17 timer: is_terminated() differs from 'completed'"); }
+                if alive[2] { assert!(f2.is_terminated() == done[2], "C17 timer: is_terminated() differs from 'completed'"); }
+            }
+        }
+        s.reached(bits);
+        bits
+    }
+
+    #[no_mangle]
+    pub fn fi_verif_replay_timer(name: &str, cfg: u32, p: u32, s: &mut ScriptSrc<'_>) -> bool {
+        match name {
+            "timer_hist_noop" => { hist::<NoopLock, _>(s, cfg, 64, p); }
+            "timer_hist_check" => { hist::<CheckLock, _>(s, cfg, 64, p); }
+            "timer_delay" => { delay_check::<_>(s, p); }
+            _ => return false,
+        }
+        true
+    }
+
+    /// delay(d) means deadline(now + d), saturating: full-range Duration and clock, independent reference.
+    pub fn delay_check<S: Src>(s: &mut S, p: u32) -> u32 {
+        let now = s.u64();
+        let secs = s.u64();
+        let nanos = (s.u64() % 1_000_000_000) as u32;
+        CLOCK.0.store(now, Ordering::Relaxed);
+        let svc = GenericTimerService::<NoopLock>::new(&CLOCK);
+        let d = Duration::new(secs, nanos);
+        let mut f = ManuallyDrop::new(LocalTimer::delay(&svc, d));
+        // reference: milliseconds = secs*1000 + nanos/1e6, computed with checked steps, saturating at u64::MAX
+        let ms: u64 = match secs.checked_mul(1000) {
+            Some(x) => match x.checked_add((nanos / 1_000_000) as u64) { Some(y) => y, None => u64::MAX },
+            None => u64::MAX,
+        };
+        let want = match now.checked_add(ms) { Some(x) => x, None => u64::MAX };
+        oracle!(p, P15, f.wait_node.expiry == want, "C15 timer: delay(d) is not deadline(now + d) saturating");
+        // observed through the public API as well: a pending delay shows up in next_expiration()
+        let cell = WakeCell::new();
+        let waker = ManuallyDrop::new(mk_waker(&cell));
+        let mut cx = Context::from_waker(&waker);
+        match unsafe { Pin::new_unchecked(&mut *f) }.poll(&mut cx) {
+            Poll::Ready(()) => { oracle!(p, P15, want <= now, "C15 timer: delay completed at once although now + d is in the future"); }
+            Poll::Pending => {
+                oracle!(p, P15, want > now && svc.next_expiration() == Some(want), "C15 timer: a pending delay is not registered at now + d");
+                unsafe { ManuallyDrop::drop(&mut f) };
+            }
+        }
+        0
+    }
+
+    // =====================================================================
+    // E-STEP: ANY heap-ordered tree over the registered subset of 4 timer futures, symbolic deadlines and
+    // clock (full u64), one operation. Inv: heap members = {Registered}; Registered => stored waker = latest.
+    // =====================================================================
+    #[cfg(kani)]
+    pub mod step {
+        use super::*;
+        use crate::intrusive_pairing_heap::verif_build4;
+        type Node = HeapNode<TimerQueueEntry>;
+        // 0 Unregistered(live), 1 Registered, 2 Expired (not observed), 3 Terminated
+        fn any_st() -> u8 { let x: u8 = kani::any(); kani::assume(x < 4); x }
+        fn obs(f: &LocalTimerFuture<'_>) -> u8 {
+            match (&f.wait_node.state, f.timer.is_some()) {
+                (_, false) => 3,
+                (PollState::Unregistered, true) => 0,
+                (PollState::Registered, true) => 1,
+                (PollState::Expired, true) => 2,
+            }
+        }
+        /// class: 0 poll, 1 drop, 2 check_expirations (+ next_expiration), 3 any
+        pub fn run<M: RawMutex>(class: u8, p: u32) {
+            let now: u64 = kani::any();
+            CLOCK.0.store(now, Ordering::Relaxed);
+            let svc = GenericTimerService::<M>::new(&CLOCK);
+            let (c0a, c0b, c1a, c1b, c2a, c2b, c3a, c3b) = (
+                WakeCell::new(), WakeCell::new(), WakeCell::new(), WakeCell::new(),
+                WakeCell::new(), WakeCell::new(), WakeCell::new(), WakeCell::new(),
+            );
+            let dl: [u64; 4] = [kani::any(), kani::any(), kani::any(), kani::any()];
+            let mut f0 = ManuallyDrop::new(LocalTimer::deadline(&svc, dl[0]));
+            let mut f1 = ManuallyDrop::new(LocalTimer::deadline(&svc, dl[1]));
+            let mut f2 = ManuallyDrop::new(LocalTimer::deadline(&svc, dl[2]));
+            let mut f3 = ManuallyDrop::new(LocalTimer::deadline(&svc, dl[3]));
+            let st = [any_st(), any_st(), any_st(), any_st()];
+            let lw: [bool; 4] = [kani::any(), kani::any(), kani::any(), kani::any()];
+            macro_rules! setup {
+                ($f:ident, $i:expr, $ca:expr, $cb:expr) => {
+                    match st[$i] {
+                        0 => {}
+                        1 => { $f.wait_node.state = PollState::Registered; $f.wait_node.task = Some(if lw[$i] { mk_waker(&$ca) } else { mk_waker(&$cb) }); }
+                        2 => { $f.wait_node.state = PollState::Expired; }
+                        _ => { $f.wait_node.state = PollState::Expired; $f.timer = None; }
+                    }
+                };
+            }
+            setup!(f0, 0, c0a, c0b);
+            setup!(f1, 1, c1a, c1b);
+            setup!(f2, 2, c2a, c2b);
+            setup!(f3, 3, c3a, c3b);
+            let tab: [*mut Node; 4] = [&mut f0.wait_node, &mut f1.wait_node, &mut f2.wait_node, &mut f3.wait_node];
+            let member = [st[0] == 1, st[1] == 1, st[2] == 1, st[3] == 1];
+            unsafe {
+                let mut g = svc.inner.lock();
+                verif_build4(&mut g.waiters, &tab, &member);
+            }
+            let mut alive = [true; 4];
+            let mut polled = 4usize;
+            let mut polled_w = false;
+            let t: usize = kani::any();
+            kani::assume(t < 4);
+            let cls: u8 = if class == 3 { kani::any() } else { class };
+            kani::assume(cls < 3);
+            let cells_a = [&c0a, &c1a, &c2a, &c3a];
+            let cells_b = [&c0b, &c1b, &c2b, &c3b];
+            if cls == 0 {
+                kani::assume(st[t] != 3);
+                let f = match t { 0 => &mut f0, 1 => &mut f1, 2 => &mut f2, _ => &mut f3 };
+                let wa: bool = kani::any();
+                let cell = if wa { cells_a[t] } else { cells_b[t] };
+                let w = ManuallyDrop::new(mk_waker(cell));
+                let mut cx = Context::from_waker(&w);
+                let res = unsafe { Pin::new_unchecked(&mut **f) }.poll(&mut cx);
+                polled = t;
+                polled_w = wa;
+                let expect_ready = match st[t] { 0 => now >= dl[t], 1 => false, _ => true };
+                oracle!(p, P15, res.is_ready() == expect_ready, "C15 timer step: poll outcome differs from 'deadline reached at the first poll, or expired by a check'");
+            } else if cls == 1 {
+                let f = match t { 0 => &mut f0, 1 => &mut f1, 2 => &mut f2, _ => &mut f3 };
+                unsafe { ManuallyDrop::drop(f) };
+                alive[t] = false;
+            } else {
+                svc.check_expirations();
+            }
+            let t2 = [obs(&f0), obs(&f1), obs(&f2), obs(&f3)];
+            let mut i = 0;
+            let mut mn: Option<u64> = None;
+            while i < 4 {
+                if alive[i] {
+                    if cls == 2 {
+                        let due = st[i] == 1 && dl[i] <= now;
+                        let c = if lw[i] { cells_a[i] } else { cells_b[i] };
+                        let o = if lw[i] { cells_b[i] } else { cells_a[i] };
+                        if due {
+                            oracle!(p, P15, t2[i] == 2 && c.n() == 1 && o.n() == 0, "C15 timer step: a due timer was not expired and woken once through its latest waker");
+                        } else {
+                            oracle!(p, P15, t2[i] == st[i] && c.n() == 0 && o.n() == 0, "C15 timer step: check_expirations touched a timer that is not due");
+                        }
+                    }
+                    if t2[i] == 1 && mn.map_or(true, |m| dl[i] < m) { mn = Some(dl[i]); }
+                }
+                i += 1;
+            }
+            if cls == 2 {
+                // deadline order of the wake-ups
+                i = 0;
+                while i < 4 {
+                    let mut j = 0;
+                    while j < 4 {
+                        if i != j && st[i] == 1 && st[j] == 1 && dl[i] <= now && dl[j] <= now && dl[i] < dl[j] {
+                            let si = if lw[i] { cells_a[i] } else { cells_b[i] }.last_seq.get();
+                            let sj = if lw[j] { cells_a[j] } else { cells_b[j] }.last_seq.get();
+                            oracle!(p, P15, si < sj, "C15 timer step: due timers were not woken in deadline order");
+                        }
+                        j += 1;
+                    }
+                    i += 1;
+                }
+            }
+            oracle!(p, P15, svc.next_expiration() == mn, "C15 timer step: next_expiration() differs from the smallest registered deadline");
+            if (p & (P01 | P15)) != 0 {
+                let g = svc.inner.lock();
+                let member2 = [alive[0] && t2[0] == 1, alive[1] && t2[1] == 1, alive[2] && t2[2] == 1, alive[3] && t2[3] == 1];
+                let ok = unsafe { verif_validate4(&g.waiters, &tab, &member2) };
+                if (p & P01) != 0 { assert!(ok, "C01 timer step: the timer heap does not contain exactly the live registered futures, consistently linked"); }
+                if (p & P15) != 0 { assert!(ok, "C15 timer step: the timer heap does not contain exactly the live registered futures, consistently linked"); }
+                if (p & P01) != 0 {
+                    i = 0;
+                    while i < 4 {
+                        if member2[i] {
+                            let nd = unsafe { &*tab[i] };
+                            let lwc: &WakeCell = if i == polled { if polled_w { cells_a[i] } else { cells_b[i] } }
+                                                 else if lw[i] { cells_a[i] } else { cells_b[i] };
+                            let okw = match &nd.task { Some(w) => w.will_wake(&ManuallyDrop::new(mk_waker(lwc))), None => false };
+                            assert!(okw, "C01 timer step: registered timer does not store the waker of its latest poll");
+                        }
+                        i += 1;
+                    }
+                }
+            }
+            if (p & P17) != 0 {
+                if alive[0] { assert!(f0.is_terminated() == (t2[0] == 3), "C17 timer step: is_terminated() differs from 'completed'"); }
+                if alive[1] { assert!(f1.is_terminated() == (t2[1] == 3), "C17 timer step: is_terminated() differs from 'completed'"); }
+                if alive[2] { assert!(f2.is_terminated() == (t2[2] == 3), "C17 timer step: is_terminated() differs from 'completed'"); }
+                if alive[3] { assert!(f3.is_terminated() == (t2[3] == 3), "C17 timer step: is_terminated() differs from 'completed'"); }
+            }
+        }
+    }
+
+    #[cfg(kani)]
+    mod proofs {
+        use super::*;
+        macro_rules! hist_proof {
+            ($name:ident, $lock:ty, $n:expr, $p:expr, $unw:expr) => {
+                #[kani::proof]
+                #[kani::unwind($unw)]
+                fn $name() {
+                    let bits = hist::<$lock, _>(&mut KaniSrc, 0, $n, $p);
+                    kani::cover!(bits & W_DUE_AND_NOT_DUE != 0, "W check expires one timer and leaves another");
+                }
+            };
+        }
+        hist_proof!(hist_c15_n5, NoopLock, 5, P15, 7);
+        hist_proof!(hist_c15_n6, NoopLock, 6, P15, 8);
+        hist_proof!(hist_c15_n7, NoopLock, 7, P15, 9);
+        hist_proof!(hist_c15_n5_check, CheckLock, 5, P15, 7);
+        hist_proof!(hist_c17_n5, NoopLock, 5, P17, 7);
+        hist_proof!(hist_c01_n5, NoopLock, 5, P01, 7);
+        hist_proof!(hist_c01_n5_check, CheckLock, 5, P01, 7);
+
+        #[kani::proof]
+        #[kani::unwind(7)]
+        fn delay_full_range() { delay_check(&mut KaniSrc, P15); }
+
+        macro_rules! step_proof {
+            ($name:ident, $lock:ty, $class:expr, $p:expr) => {
+                #[kani::proof]
+                #[kani::unwind(7)]
+                fn $name() { step::run::<$lock>($class, $p) }
+            };
+        }
+        step_proof!(step_c15_poll, NoopLock, 0, P15);
+        step_proof!(step_c15_drop, NoopLock, 1, P15);
+        step_proof!(step_c15_check, NoopLock, 2, P15);
+        step_proof!(step_c01_poll, NoopLock, 0, P01);
+        step_proof!(step_c01_drop, NoopLock, 1, P01);
+        step_proof!(step_c01_check, NoopLock, 2, P01);
+        step_proof!(step_c17, NoopLock, 3, P17);
+
+        #[kani::proof]
+        #[kani::unwind(8)]
+        fn witness_order_n6() {
+            let bits = hist::<NoopLock, _>(&mut KaniSrc, 0, 6, 0);
+            assert!(bits & W_TWO_EXPIRE == 0, "WITNESS reached");
+        }
+    }
+}
